@@ -370,15 +370,17 @@ func (broker *Broker) recover() (send []sts.Hashed, err error) {
 			var beg int64
 			var missing chunks
 			for _, part := range parts {
-				if beg == part.Beg {
-					beg = part.End
-					continue
+				// The ranges on record may overlap: a gap exists only where the
+				// next one begins beyond what is covered so far
+				if beg < part.Beg {
+					missing = append(missing, &sts.ByteRange{
+						Beg: beg,
+						End: part.Beg,
+					})
 				}
-				missing = append(missing, &sts.ByteRange{
-					Beg: beg,
-					End: part.Beg,
-				})
-				beg = part.End
+				if part.End > beg {
+					beg = part.End
+				}
 			}
 			if beg < f.GetSize() {
 				missing = append(missing, &sts.ByteRange{
